@@ -210,6 +210,10 @@ func (mo *vmodel) check(db *DB, tag string, keys []string) {
 // handful of tiny entries.  Thresholds are symbolic: every comparison against them
 // partitions their range, so every rotation/block pattern some threshold produces is covered.
 func vconfig(prefix string) Config {
+	if fix := vf.Param("MEMFIX", 0); fix > 0 {
+		// a job about transaction logic only: no rotation
+		return Config{SkipListMaxLevel: 1, SkipListP: 0.5, MemtableByteThreshold: fix, ImmutableBuffer: 1, DataBlockByteThreshold: 40, L0TargetNum: 1, LevelRatio: 1}
+	}
 	return Config{
 		SkipListMaxLevel:       1, // native tower heights are random and change memtable sizes; levels are C17's subject
 		SkipListP:              0.5,
